@@ -8,6 +8,7 @@ theorems, their `_partial` variants, negation witnesses and non-vacuity examples
 -/
 import Argot.Proofs.BackVisit
 import Argot.Proofs.BackVisitLink
+import Argot.Proofs.BackVisitDfs
 
 namespace Argot.BackVisit
 
@@ -99,5 +100,221 @@ example : (run Gid {} idOrder 100 0).traces = [[7, 4, 3, 5, 6, 2, 0]] := by deci
 example : (run Gid {} idOrder 100 0).incoherent = false ∧ (run Gid {} idOrder 100 0).finished = true := by decide
 example : TraceWF (Linked Gid) 0 [7, 4, 3, 5, 6, 2, 0] :=
   trace_wellformed_partial Gid {} idOrder (fun _ _ _ h => h) 100 0 [] (by decide) _ (by decide)
+
+/-! ## 2. Completeness (the property's first sentence) -/
+
+theorem dfs_final (G : LGraph) (hG : GraphHyp G) (cfg : Cfg) (ρ : VNode → List Cand → List Cand)
+    (hρ : ∀ v l c, c ∈ ρ v l ↔ c ∈ l) (fuel entry : Nat) (pei0 : List (Nat × Int))
+    (hentry : G.kind entry ≠ .freeVar) (hfin : (run G cfg ρ fuel entry pei0).finished = true) :
+    DfsInv G cfg entry (run G cfg ρ fuel entry pei0) ∧ (run G cfg ρ fuel entry pei0).stack = [] := by
+  have h0 : DfsInv G cfg entry { stack := [rootOf entry], pei := pei0 } := by
+    refine ⟨?_, by simp, Or.inl ⟨rfl, rfl⟩⟩
+    intro v hv
+    simp only [List.mem_singleton] at hv
+    subst hv
+    exact ⟨fun hk => absurd hk hentry, fun p rest hp => by simp [rootOf] at hp, fun _ _ => rfl⟩
+  have hfin' : (run G cfg ρ fuel entry pei0).stack = [] ∧ (run G cfg ρ fuel entry pei0).panicked = false := by
+    unfold St.finished at hfin
+    simpa [List.isEmpty_iff] using hfin
+  rcases loop_dfs G hG cfg ρ (fun v l c => (hρ v l c).mp) (fun v l c => (hρ v l c).mpr) entry fuel _ h0 with hp | hinv
+  · unfold run at hfin'; rw [hfin'.2] at hp; cases hp
+  · exact ⟨hinv, hfin'.1⟩
+
+/-- `back_visits_closure`: a finished traversal has seen every key reachable from the entry argument
+through guaranteed predecessors — for every linked graph whose tables are well-kinded and whose
+edges are intra-procedural (checked per dumped graph), every map iteration order, every initial
+`prevEdgeInfos`. -/
+theorem back_visits_closure (G : LGraph) (hG : GraphHyp G) (cfg : Cfg) (ρ : VNode → List Cand → List Cand)
+    (hρ : ∀ v l c, c ∈ ρ v l ↔ c ∈ l) (fuel entry : Nat) (pei0 : List (Nat × Int))
+    (hentry : G.kind entry ≠ .freeVar) (hfin : (run G cfg ρ fuel entry pei0).finished = true) :
+    ∀ k, GReach G cfg entry k → k ∈ (run G cfg ρ fuel entry pei0).seen := by
+  obtain ⟨hinv, hstack⟩ := dfs_final G hG cfg ρ hρ fuel entry pei0 hentry hfin
+  have hroot : ∀ k ∈ rsucc G cfg entry, k ∈ (run G cfg ρ fuel entry pei0).seen := by
+    rcases hinv.rootOk with ⟨h, _⟩ | h
+    · rw [hstack] at h; simp at h
+    · exact h.1
+  intro k hk
+  induction hk with
+  | root h => exact hroot _ h
+  | step _ hs ih =>
+    rcases hinv.seenOk _ ih with ⟨v, hv, _⟩ | hd
+    · rw [hstack] at hv; simp at hv
+    · exact hd.1 _ hs
+
+/-- `back_complete_partial`: every static leaf (node without inward flow: a return of a function
+that creates the value, a constant argument, a global read without writes, …) reachable through
+guaranteed predecessors — lasso-free contexts, tuple-index-consistent calls (`retOk`),
+`Prev`-independent successors — is the origin (head) of a reported, well-formed trace. -/
+theorem back_complete_partial (G : LGraph) (hG : GraphHyp G) (cfg : Cfg) (ρ : VNode → List Cand → List Cand)
+    (hρ : ∀ v l c, c ∈ ρ v l ↔ c ∈ l) (fuel entry : Nat) (pei0 : List (Nat × Int))
+    (hentry : G.kind entry ≠ .freeVar) (hfin : (run G cfg ρ fuel entry pei0).finished = true)
+    (k : Key) (hk : GReach G cfg entry k) (hleaf : staticLeaf G cfg k.1 = true) :
+    ∃ t ∈ (run G cfg ρ fuel entry pei0).traces, t.head? = some k.1 ∧ TraceWF (LinkedW G) entry t := by
+  obtain ⟨hinv, hstack⟩ := dfs_final G hG cfg ρ hρ fuel entry pei0 hentry hfin
+  have hseen := back_visits_closure G hG cfg ρ hρ fuel entry pei0 hentry hfin k hk
+  rcases hinv.seenOk _ hseen with ⟨v, hv, _⟩ | hd
+  · rw [hstack] at hv; simp at hv
+  · obtain ⟨t, ht, hh⟩ := hd.2 hleaf
+    exact ⟨t, ht, hh, trace_wellformed_weak G cfg ρ (fun v l c => (hρ v l c).mp) fuel entry pei0 t ht⟩
+
+/-- … and when the leaf is a return node that nothing but calls point at, the trace goes through a
+call of that function: "at least one trace contains that originating call". -/
+theorem origin_call_in_trace (G : LGraph) (hwk : wellKinded G = true) (entry r : Nat) (rest : List Nat)
+    (hwf : TraceWF (LinkedW G) entry (r :: rest)) (hr : G.kind r = .ret) (hne : r ≠ entry)
+    (hsrc : ∀ n i, (r, i) ∉ (G.node n).ins ∧ (r, i) ∉ (G.node n).outs) :
+    ∃ c rest', rest = c :: rest' ∧ G.kind c = .call ∧ r ∈ (G.node c).rets := by
+  cases rest with
+  | nil =>
+    have := hwf.last
+    simp at this
+    exact absurd this hne
+  | cons c rest' =>
+    refine ⟨c, rest', rfl, ?_⟩
+    have hl : LinkedW G c r := hwf.chain.1
+    have kindOf : ∀ {k : NKind}, G.kind r = k → k = .ret := fun h => by rw [hr] at h; exact h.symm
+    cases hl with
+    | ctxJump _ hb =>
+      have := (wk_at G hwk _).2.2.2.1 r (List.mem_of_getElem? hb)
+      exact absurd (kindOf this) (by simp)
+    | link hl =>
+      cases hl with
+      | inEdge h => exact absurd h (hsrc c _).1
+      | paramToArg _ _ ha =>
+        have := (wk_at G hwk _).1 r (List.mem_of_getElem? ha)
+        exact absurd (kindOf this) (by simp)
+      | argToParam _ hp =>
+        have := (wk_at G hwk (G.node c).parent).2.1 r (List.mem_of_getElem? hp)
+        exact absurd (kindOf this) (by simp)
+      | argOut _ _ ho => exact absurd ho (hsrc c _).2
+      | callToRet hk hrets => exact ⟨hk, hrets⟩
+      | readToWrite _ hw =>
+        have := (wk_at G hwk c).2.2.2.2.2 r hw
+        exact absurd (kindOf this) (by simp)
+      | bvToFv _ hf =>
+        have := (wk_at G hwk (G.node c).parent).2.2.2.2.1 r (List.mem_of_getElem? hf)
+        exact absurd (kindOf this) (by simp)
+      | fvToBv _ _ hb =>
+        have := (wk_at G hwk _).2.2.2.1 r (List.mem_of_getElem? hb)
+        exact absurd (kindOf this) (by simp)
+      | closureToBv _ hb =>
+        have := (wk_at G hwk c).2.2.2.1 r hb
+        exact absurd (kindOf this) (by simp)
+
+/-- what the oracle computes (`greach`) is inside `GReach`, so `real ⊇ model` compares the REAL
+trace heads with a set the theorems above speak about -/
+theorem greachLoop_sound (G : LGraph) (cfg : Cfg) (entry : Nat) : ∀ (fuel : Nat) (todo acc : List Key),
+    (∀ k ∈ todo, GReach G cfg entry k) → (∀ k ∈ acc, GReach G cfg entry k) →
+    ∀ k ∈ greachLoop G cfg fuel todo acc, GReach G cfg entry k
+  | 0, _, _, _, ha => by simpa [greachLoop] using ha
+  | _ + 1, [], _, _, ha => by simpa [greachLoop] using ha
+  | fuel + 1, k0 :: todo, acc, ht, ha => by
+    simp only [greachLoop]
+    have hnew : ∀ k ∈ ((gsucc G cfg k0).filter fun k' => !acc.contains k').eraseDups, GReach G cfg entry k := by
+      intro k hk
+      have hk' := (List.mem_eraseDups.mp hk)
+      exact .step (ht k0 List.mem_cons_self) (List.mem_filter.mp hk').1
+    apply greachLoop_sound G cfg entry fuel
+    · intro k hk
+      rcases List.mem_append.mp hk with h | h
+      · exact hnew k h
+      · exact ht k (List.mem_cons_of_mem _ h)
+    · intro k hk
+      rcases List.mem_append.mp hk with h | h
+      · exact ha k h
+      · exact hnew k h
+
+theorem greach_sound (G : LGraph) (cfg : Cfg) (fuel entry : Nat) :
+    ∀ k ∈ greach G cfg fuel entry, GReach G cfg entry k := by
+  unfold greach
+  have h : ∀ k ∈ (rsucc G cfg entry).eraseDups, GReach G cfg entry k :=
+    fun k hk => .root (List.mem_eraseDups.mp hk)
+  exact greachLoop_sound G cfg entry fuel _ _ h h
+
+/-! ### Negation witnesses: the full statements are false on the current code -/
+
+/-- F10. `a := src1(); b := src2(); p, q := two(a, b); sink(p + q)`. `Out()` of the call `two(a,b)`
+has both edge infos to the sink argument (indices 0 and 1), `In()` of the argument keeps one (index
+1): the traversal filters `two.return.0` and never reaches `src1()`. -/
+def Gtuple : LGraph :=
+  { nodes := #[
+      { kind := .arg, graph := 0, parent := 1, index := 1, ins := [(2, 1)] },                   -- 0 sink(p+q)
+      { kind := .call, graph := 0, args := [0], calleeGraph := some 4, isPoint := true },       -- 1
+      { kind := .call, graph := 0, args := [3, 4], calleeGraph := some 1, calleeParam := [some 5, some 6],
+        rets := [7, 8], outs := [(0, 0), (0, 1)] },                                             -- 2 two(a,b)
+      { kind := .arg, graph := 0, parent := 2, index := 0, ins := [(9, 0)] },                   -- 3
+      { kind := .arg, graph := 0, parent := 2, index := 1, ins := [(10, 0)] },                  -- 4
+      { kind := .param, graph := 1, index := 0 },                                               -- 5 a
+      { kind := .param, graph := 1, index := 1 },                                               -- 6 b
+      { kind := .ret, graph := 1, index := 0, ins := [(5, -1)] },                               -- 7 two.return.0
+      { kind := .ret, graph := 1, index := 1, ins := [(6, -1)] },                               -- 8 two.return.1
+      { kind := .call, graph := 0, calleeGraph := some 2, rets := [11], outs := [(3, 0)] },     -- 9 src1()
+      { kind := .call, graph := 0, calleeGraph := some 3, rets := [12], outs := [(4, 0)] },     -- 10 src2()
+      { kind := .ret, graph := 2, index := 0 },                                                 -- 11
+      { kind := .ret, graph := 3, index := 0 } ],                                               -- 12
+    graphs := #[ {}, { callsites := [2] }, { callsites := [9] }, { callsites := [10] }, {} ] }
+
+/-- the index-respecting backward chain from the sink argument to `src1()` -/
+def tupleChain : List Nat := [11, 9, 3, 5, 7, 2, 0]
+
+theorem tuple_chain_valid : TraceWF (LinkedO Gtuple) 0 tupleChain := by
+  refine ⟨by decide, ?_⟩
+  have L : ∀ a b, linkedB Gtuple a b = true → Linked Gtuple a b := fun a b => linked_of_linkedB
+  refine ⟨⟨L 9 11 (by decide), fun _ _ => Or.inr ⟨3, by decide⟩⟩, ⟨L 3 9 (by decide), fun h => by cases h⟩,
+    ⟨L 5 3 (by decide), fun h => by cases h⟩, ⟨L 7 5 (by decide), fun h => by cases h⟩,
+    ⟨L 2 7 (by decide), fun _ _ => Or.inr ⟨0, by decide⟩⟩, ⟨L 0 2 (by decide), fun h => by cases h⟩, trivial⟩
+
+theorem tuple_run : (run Gtuple {} idOrder 100 0).traces = [[12, 10, 4, 6, 8, 2, 0]] ∧
+    (run Gtuple {} idOrder 100 0).finished = true := by decide
+
+/-- `BackCompleteFull` is FALSE for the modelled code (tuple index lost in `In()`, F10). -/
+theorem back_complete_false : ¬ BackCompleteFull Gtuple {} := by
+  intro h
+  obtain ⟨t', ht', hm⟩ := h idOrder (fun _ _ _ => Iff.rfl) 100 0 tuple_run.2 tupleChain tuple_chain_valid 9 (by decide)
+  rw [tuple_run.1] at ht'
+  simp only [List.mem_singleton] at ht'
+  subst ht'
+  revert hm; decide
+
+/-- … and the hypothesis of the partial theorem that fails there is decidable: `retOk` is false for
+the call `two(a,b)` (its out-edges carry two different indices), so its returns are not guaranteed;
+the graph also violates in/out index consistency (C17 `inv_index`). -/
+example : retOk Gtuple 2 0 = false ∧ tupleConsistent Gtuple = false := by decide
+
+/-- Defer/Go: a deferred call to a backtrace point is not an entry point. -/
+def Gdefer : LGraph :=
+  { nodes := #[
+      { kind := .arg, graph := 0, parent := 1, ins := [(2, 0)] },
+      { kind := .call, graph := 0, args := [0], calleeGraph := some 1, isPoint := true, goDefer := true },
+      { kind := .call, graph := 0, calleeGraph := some 2, rets := [3] },
+      { kind := .ret, graph := 2 } ],
+    graphs := #[ {}, {}, { callsites := [2] } ] }
+
+theorem entries_incomplete : ¬ EntriesComplete Gdefer := by
+  intro h; have := h 0 (by decide); revert this; decide
+
+theorem entries_complete_partial (G : LGraph)
+    (h : ∀ i, (G.node i).kind = .call → (G.node i).isPoint = true → (G.node i).goDefer = false) :
+    EntriesComplete G := by
+  intro a ha
+  unfold pointArgs at ha
+  unfold entryArgs
+  simp only [List.mem_flatMap, List.mem_range] at ha ⊢
+  obtain ⟨i, hi, ha⟩ := ha
+  refine ⟨i, hi, ?_⟩
+  split at ha
+  · rename_i hc
+    simp only [Bool.and_eq_true, beq_iff_eq] at hc
+    have := h i hc.1 hc.2
+    simp [hc.1, hc.2, this, ha]
+  · simp at ha
+
+/-! ### Non-vacuity of the completeness theorems -/
+
+example : GraphHyp Gid := ⟨by decide, by decide⟩
+example : GReach Gid {} 0 (7, [4], [], 0) := greach_sound Gid {} 100 0 _ (by decide)
+example : staticLeaf Gid {} 7 = true := by decide
+example : ∃ t ∈ (run Gid {} idOrder 100 0).traces, t.head? = some 7 ∧ TraceWF (LinkedW Gid) 0 t :=
+  back_complete_partial Gid ⟨by decide, by decide⟩ {} idOrder (fun _ _ _ => Iff.rfl) 100 0 [] (by decide) (by decide)
+    (7, [4], [], 0) (greach_sound Gid {} 100 0 _ (by decide)) (by decide)
 
 end Argot.BackVisit
